@@ -386,6 +386,8 @@ func TestVerifC22Kad(t *testing.T) {
 		"v2 round robin over bins, all connects first, then statuses in reverse order, SetRadius(1) in between",
 		"v3 outbound, two extra public peers (bin 0 and bin 4) connected first, removed last by DisconnectForce and Disconnected",
 		"v4 as v0, but every peer that ends private is first reported public and downgraded after all connects",
+		"v5 as v0, then SetRadius(1) and under that lowered radius one event of every kind on extra peers (connected, public, outbound, public, downgrade to private, disconnected, disconnect-force), then SetRadius(31)",
+		"v6 SetRadius(0) first, descending outbound build-up, SetRadius(2) (raise), connected/public/disconnect-force of an extra bin-0 peer, SetRadius(1) (lower), outbound/public/disconnect-force of an extra bin-4 peer, connected/public/disconnected of an extra bin-1 peer, SetRadius(31)",
 	}
 
 	var cfgDesc []string
@@ -496,6 +498,38 @@ func TestVerifC22Kad(t *testing.T) {
 				for _, p := range down {
 					ev = append(ev, c22Event{kind: "private", peer: p})
 				}
+			case 5:
+				for _, p := range byBin(false) {
+					ev = append(ev, c22Event{kind: "connected", peer: p})
+					ev = append(ev, status(p)...)
+				}
+				e1 := &c22Peer{addr: c22Addr(1, 43), bin: 1, ser: 43, reachable: true}
+				e4 := &c22Peer{addr: c22Addr(4, 44), bin: 4, ser: 44, reachable: true}
+				ev = append(ev, c22Event{kind: "radius", radius: 1},
+					c22Event{kind: "connected", peer: e4}, c22Event{kind: "public", peer: e4},
+					c22Event{kind: "outbound", peer: e1}, c22Event{kind: "public", peer: e1},
+					c22Event{kind: "private", peer: e1},
+					c22Event{kind: "disconnected", peer: e1},
+					c22Event{kind: "disconnect-force", peer: e4},
+					c22Event{kind: "radius", radius: 31})
+			case 6:
+				ev = append(ev, c22Event{kind: "radius", radius: 0})
+				for _, p := range byBin(true) {
+					ev = append(ev, c22Event{kind: "outbound", peer: p})
+					ev = append(ev, status(p)...)
+				}
+				e0 := &c22Peer{addr: c22Addr(0, 45), bin: 0, ser: 45, reachable: true}
+				e1 := &c22Peer{addr: c22Addr(1, 46), bin: 1, ser: 46, reachable: true}
+				e4 := &c22Peer{addr: c22Addr(4, 47), bin: 4, ser: 47, reachable: true}
+				ev = append(ev, c22Event{kind: "radius", radius: 2},
+					c22Event{kind: "connected", peer: e0}, c22Event{kind: "public", peer: e0},
+					c22Event{kind: "disconnect-force", peer: e0},
+					c22Event{kind: "radius", radius: 1},
+					c22Event{kind: "outbound", peer: e4}, c22Event{kind: "public", peer: e4},
+					c22Event{kind: "disconnect-force", peer: e4},
+					c22Event{kind: "connected", peer: e1}, c22Event{kind: "public", peer: e1},
+					c22Event{kind: "disconnected", peer: e1},
+					c22Event{kind: "radius", radius: 31})
 			}
 			return ev
 		}
@@ -507,11 +541,23 @@ func TestVerifC22Kad(t *testing.T) {
 		results := make([][]obs, len(variants))
 		traces := make([]string, len(variants))
 		stale := map[string]string{}
+		eventClause := map[string]string{} // first per-event violation of a clause, by key
 		for vi := range variants {
 			k, cleanup := c22NewKad(x, cfg)
 			ev := build(vi)
 			var tr []string
+			// the harness's own view of the history: current radius, last reported status per peer
+			curRadius := int(boson.MaxPO)
+			reported := map[string]bool{}
 			for _, e := range ev {
+				switch e.kind {
+				case "public":
+					reported[e.peer.addr.ByteString()] = true
+				case "private":
+					reported[e.peer.addr.ByteString()] = false
+				case "radius":
+					curRadius = e.radius
+				}
 				switch e.kind {
 				case "connected":
 					x.NoErr(k.Connected(context.Background(), p2p.Peer{Address: e.peer.addr, Mode: fullMode}, false), "Connected")
@@ -529,14 +575,48 @@ func TestVerifC22Kad(t *testing.T) {
 					k.SetRadius(uint8(e.radius))
 				}
 				tr = append(tr, e.String())
-				// clause 6 after every event: the reported depth is the depth of the current set
-				if got, fresh := int(k.NeighborhoodDepth()), int(recalcDepth(k.connectedPeers, k.radius, k.peerFilter)); got != fresh {
+				// after every event: the five clauses on the reported depth, for the peers connected now (read
+				// from the Kad), the statuses reported so far and the radius set last (harness bookkeeping)
+				{
+					occ := map[int]*c22Bin{}
+					_ = k.connectedPeers.EachBin(func(a boson.Address, po uint8) (bool, bool, error) {
+						b := occ[int(po)]
+						if b == nil {
+							b = &c22Bin{bin: int(po)}
+							occ[int(po)] = b
+						}
+						b.c++
+						if reported[a.ByteString()] {
+							b.r++
+						}
+						return false, false, nil
+					})
+					var cur c22Vec
+					for bin := 0; bin < int(boson.MaxBins); bin++ {
+						if b := occ[bin]; b != nil {
+							cur = append(cur, *b)
+						}
+					}
+					d := int(k.NeighborhoodDepth())
+					if key := c22Clause(cur, curRadius, d, low, quick); key != "" {
+						if _, dup := eventClause[key]; !dup {
+							eventClause[key] = fmt.Sprintf("%s after %s (Kad, %s; events so far: %s)", c22Explain(key, cur, curRadius, d), e, variants[vi][:2], strings.Join(tr, " "))
+						}
+					}
+					if curRadius < d {
+						x.Tag("event-under-radius-below-depth-violated")
+					} else if curRadius < int(recalcDepth(k.connectedPeers, boson.MaxPO, k.peerFilter)) {
+						x.Tag("event-under-radius-below-unclamped-depth:" + e.kind)
+					}
+				}
+				// clause 6 after every event: the reported depth is the depth of the current set with the current radius
+				if got, fresh := int(k.NeighborhoodDepth()), int(recalcDepth(k.connectedPeers, uint8(curRadius), k.peerFilter)); got != fresh {
 					key := "depth-stale-after-" + e.kind
 					if e.kind == "private" {
 						key = "depth-stale-after-reachability-downgrade"
 					}
 					if _, dup := stale[key]; !dup {
-						stale[key] = fmt.Sprintf("%s: after %s NeighborhoodDepth()=%d but the current peer set gives %d (radius %d); events so far: %s", variants[vi][:2], e, got, fresh, k.radius, strings.Join(tr, " "))
+						stale[key] = fmt.Sprintf("%s: after %s NeighborhoodDepth()=%d but the current peer set gives %d (radius %d); events so far: %s", variants[vi][:2], e, got, fresh, curRadius, strings.Join(tr, " "))
 					}
 				}
 			}
@@ -574,7 +654,10 @@ func TestVerifC22Kad(t *testing.T) {
 				x.Fail("depth-stale-after-"+kind, "%s (final occupancy %s)", msg, v)
 			}
 		}
-		for vi := 1; vi < len(variants)-1; vi++ { // v4 (downgrade) is reported below under its own key
+		for vi := 1; vi < len(variants); vi++ {
+			if vi == 4 {
+				continue // v4 (downgrade) is reported below under its own key
+			}
 			for i := range results[0] {
 				if results[vi][i].radius == results[0][i].radius && results[vi][i].depth != results[0][i].depth {
 					x.Fail("depth-depends-on-event-order", "same final peer set %s, radius %d: depth %d after [%s] but %d after [%s]", v, results[0][i].radius, results[0][i].depth, traces[0], results[vi][i].depth, traces[vi])
@@ -590,6 +673,11 @@ func TestVerifC22Kad(t *testing.T) {
 		}
 		// clauses 1..4 on every depth the Kad reported, then the downgrade finding, clause 5 last
 		clauses := func(five bool) {
+			for _, key := range []string{"clause1-depth-exceeds-radius", "clause2-depth-nonzero-with-at-most-three-peers", "clause3-fewer-than-three-reachable-peers-at-or-beyond-depth", "clause4-depth-exceeds-shallowest-empty-bin", "clause5-shallower-bin-below-quick-saturation"} {
+				if msg, ok := eventClause[key]; ok && (key == "clause5-shallower-bin-below-quick-saturation") == five {
+					x.Fail(key, "%s", msg)
+				}
+			}
 			for vi := range variants {
 				for _, o := range results[vi] {
 					key := c22Clause(v, o.radius, o.depth, low, quick)
